@@ -209,19 +209,70 @@ DATA_VAL = [1.0, 2.0, 3.0, 5.0]
 CTX_VAL = [10.0, 20.0, 30.0, 40.0]
 XVAL = [1.0, 2.0, 4.0, 8.0]
 
-REPRO_B = HEAD + """data = pd.DataFrame({data!r})
-context = {ctx}
-mm = model_matrix({formula!r}, data, context=context)
-col = np.asarray(mm, dtype=float)[:, -1].tolist()
-assert col == {want!r}, ('value came from the wrong layer', col)
+HEAD_B = HEAD + ("from formulaic.utils.context import capture_context\n"
+                 "from formulaic.utils.layered_mapping import LayeredMapping\n")
+
+# How the caller hands its context over. Every style builds `mm` from `formula`, `data` and the context items
+# (name -> python source of the value); the same generated source is executed by the driver and embedded in the replay.
+STYLES = ("dict", "layered-unnamed", "layered-named", "layered-nested", "caller-locals", "caller-globals", "capture_context")
+
+
+def style_source(style, items):
+    """Source that defines `mm` (expects `formula`, `data` and the imports of HEAD_B)."""
+    d = "{" + ", ".join(f"{k!r}: {v}" for k, v in items) + "}"
+    if style == "dict":
+        return f"mm = model_matrix(formula, data, context={d})\n"
+    if style == "layered-unnamed":
+        return f"mm = model_matrix(formula, data, context=LayeredMapping({d}))\n"
+    if style == "layered-named":
+        return f"mm = model_matrix(formula, data, context=LayeredMapping({d}, name='user'))\n"
+    if style == "layered-nested":
+        h = len(items) // 2
+        d1 = "{" + ", ".join(f"{k!r}: {v}" for k, v in items[:h]) + "}"
+        d2 = "{" + ", ".join(f"{k!r}: {v}" for k, v in items[h:]) + "}"
+        return f"mm = model_matrix(formula, data, context=LayeredMapping(LayeredMapping({d2}), None, LayeredMapping({d1}), {{}}))\n"
+    # the remaining styles capture the calling frame; a name whose value is the module global of the same name
+    # (e.g. np) is left to the frame's globals
+    assigns = [(k, v) for k, v in items if k != v]
+    if style == "caller-locals":
+        body = "".join(f"    {k} = {v}\n" for k, v in assigns)
+        return f"def _caller(_formula, _data):\n{body}    return model_matrix(_formula, _data)\nmm = _caller(formula, data)\n"
+    if style == "caller-globals":
+        top = "".join(f"{k} = {v}\n" for k, v in assigns)
+        return f"{top}def _caller(_formula, _data):\n    return model_matrix(_formula, _data)\nmm = _caller(formula, data)\n"
+    if style == "capture_context":
+        body = "".join(f"    {k} = {v}\n" for k, v in assigns)
+        return (f"def _caller(_formula, _data):\n{body}    _captured = capture_context(0)\n"
+                "    return Formula(_formula).get_model_matrix(_data, context=_captured)\nmm = _caller(formula, data)\n")
+    raise AssertionError(style)
+
+
+def run_style(style, formula, data, items):
+    """Execute the generated source in a fresh namespace; returns (mm, source)."""
+    import numpy as np
+    import pandas as pd
+    from formulaic import Formula, model_matrix
+    from formulaic.utils.context import capture_context
+    from formulaic.utils.layered_mapping import LayeredMapping
+
+    src = style_source(style, items)
+    env = {"np": np, "pd": pd, "Formula": Formula, "model_matrix": model_matrix, "capture_context": capture_context,
+           "LayeredMapping": LayeredMapping, "formula": formula, "data": pd.DataFrame(data)}
+    exec(compile(src, "<c17-style>", "exec"), env)  # exceptions are outcomes of the code under test (the source is fixed text)
+    return env["mm"], src
+
+
+REPRO_B = HEAD_B + """data = pd.DataFrame({data!r})
+formula = {formula!r}
+{build}col = np.asarray(mm, dtype=float)[:, -1].tolist()
+assert np.allclose(col, {want!r}, rtol=0, atol=1e-12), ('value came from the wrong layer', col)
 src = {{str(v): k for k, vs in mm.model_spec.variables_by_source.items() for v in vs}}
-assert src.get({var!r}) == {layer!r}, ('reported source', src)
+assert str(src.get({var!r})).split(':')[0] == {layer!r}, ('reported source', src)
 """
-REPRO_B_FAIL = HEAD + """data = pd.DataFrame({data!r})
-context = {ctx}
+REPRO_B_FAIL = HEAD_B + """data = pd.DataFrame({data!r})
+formula = {formula!r}
 try:
-    model_matrix({formula!r}, data, context=context)
-except FactorEvaluationError:
+{build}except FactorEvaluationError:
     pass
 else:
     raise AssertionError('the data column should shadow the callable of the same name')
@@ -230,15 +281,32 @@ else:
 
 def check_resolution(b, counts):
     import numpy as np
-    import pandas as pd
-    from formulaic import model_matrix
     from formulaic.errors import FactorEvaluationError
     from formulaic.transforms import TRANSFORMS
 
-    class Cfg:
-        scale = 2.0
-
     assert "log" in TRANSFORMS and "center" in TRANSFORMS and "n" not in TRANSFORMS  # driver self-check
+    ctx_vec = f"np.array({CTX_VAL!r})"
+
+    def judge(kind, formula, data, items, want, var, layer, tag, nontrivial):
+        for style in STYLES:
+            if style != "dict" and not items:
+                continue  # nothing to hand over: all styles coincide
+            b.case((kind, formula, tuple(sorted(data)), tuple(k for k, _ in items), style), nontrivial=nontrivial,
+                   sample={"formula": formula, "context": [k for k, _ in items], "style": style})
+            w = {"formula": formula, "name": var, "context_style": style, "context_names": [k for k, _ in items], "scenario": tag,
+                 "code": REPRO_B.format(data=data, formula=formula, build=style_source(style, items), want=want, var=var, layer=layer)}
+            try:
+                mm, _ = run_style(style, formula, data, items)
+                col = np.asarray(mm, dtype=float)[:, -1].tolist()
+                src = {str(v): k for k, vs in mm.model_spec.variables_by_source.items() for v in vs}
+            except Exception as e:  # outcome of the code under test
+                _fail(b, counts, "C17.resolution.order", f"{tag.split(':')[0]}:{style}:raises-{type(e).__name__}", w, f"[{tag}] {type(e).__name__}: {e}")
+                continue
+            if not np.allclose(col, want, rtol=0, atol=1e-12):
+                _fail(b, counts, "C17.resolution.order", f"{tag.split(':')[0]}:{style}", w, f"column {col}, expected {want} (value of `{var}` from `{layer}`)")
+            elif str(src.get(var)).split(":")[0] != layer:
+                _fail(b, counts, "C17.resolution.source-report", f"context-style:{style}", w,
+                      f"[{tag}] `{var}` came from `{layer}` but variables_by_source says {src.get(var)!r} ({src})")
 
     # value-role names: (name, in_data, in_context); in_transforms is a property of the name
     uses = [("{n} - 1", "lookup"), ("I({n} * 1) - 1", "python-call"), ("{{{n} + 0}} - 1", "python-braces"), ("x:{n} - 1", "interaction")]
@@ -249,68 +317,45 @@ def check_resolution(b, counts):
                 data = {"x": XVAL}
                 if in_data:
                     data[name] = DATA_VAL
-                ctx = {name: np.array(CTX_VAL)} if in_ctx else {}
-                ctx_src = f"{{{name!r}: np.array({CTX_VAL!r})}}" if in_ctx else "{}"
+                items = [(name, ctx_vec), ("unrelated", "1.0")] if in_ctx else []
                 layer = "data" if in_data else "context"
                 vals = DATA_VAL if in_data else CTX_VAL
                 want = [a * c for a, c in zip(XVAL, vals)] if how == "interaction" else list(vals)
-                b.case(("resolve-value", formula, in_data, in_ctx), nontrivial=in_data + in_ctx + (name in TRANSFORMS) >= 2,
-                       sample={"formula": formula, "in_data": bool(in_data), "in_context": bool(in_ctx), "in_transforms": name in TRANSFORMS})
-                w = {"formula": formula, "name": name, "layers": {"data": bool(in_data), "context": bool(in_ctx), "transforms": name in TRANSFORMS},
-                     "code": REPRO_B.format(data=data, ctx=ctx_src, formula=formula, want=want, var=name, layer=layer)}
                 tag = f"value:{how}:{'D' if in_data else ''}{'C' if in_ctx else ''}{'T' if name in TRANSFORMS else ''}"
-                try:
-                    mm = model_matrix(formula, pd.DataFrame(data), context=ctx)
-                    col = np.asarray(mm, dtype=float)[:, -1].tolist()
-                    src = {str(v): k for k, vs in mm.model_spec.variables_by_source.items() for v in vs}
-                except Exception as e:  # outcome of the code under test
-                    _fail(b, counts, "C17.resolution.order", tag + f":raises-{type(e).__name__}", w, f"{type(e).__name__}: {e}")
-                    continue
-                if col != want:
-                    actual = "context" if col == (CTX_VAL if how != "interaction" else [a * c for a, c in zip(XVAL, CTX_VAL)]) else "other"
-                    _fail(b, counts, "C17.resolution.order", tag, w, f"column {col}: value came from `{actual}`, expected `{layer}` ({want})")
-                elif src.get(name) != layer:
-                    _fail(b, counts, "C17.resolution.source-report", tag, w, f"value came from `{layer}` but variables_by_source says {src.get(name)!r} ({src})")
+                judge("resolve-value", formula, data, items, want, name, layer, tag, in_data + in_ctx + (name in TRANSFORMS) >= 2)
 
     # callables: context overrides a built-in transform; built-in used otherwise; plain context function; dotted context object
-    seven = [7.0] * 4
     centered = [v - sum(XVAL) / 4 for v in XVAL]
+    cfg = "type('Cfg', (), {'scale': 2.0})"
     cases = [
-        ("center(x) - 1", {}, "{}", centered, "center", "transforms", "callable:T"),
-        ("center(x) - 1", {"center": lambda v: v * 0 + 7}, "{'center': lambda v: v * 0 + 7}", seven, "center", "context", "callable:CT"),
-        ("f(x) - 1", {"f": lambda v: v + 100}, "{'f': lambda v: v + 100}", [v + 100 for v in XVAL], "f", "context", "callable:C"),
-        ("{cfg.scale * x} - 1", {"cfg": Cfg}, "{'cfg': type('Cfg', (), {'scale': 2.0})}", [2 * v for v in XVAL], "cfg.scale", "context", "dotted:C"),
-        ("np.log(x) - 1", {"np": np}, "{'np': np}", [float(np.log(v)) for v in XVAL], "np.log", "context", "dotted-callable:C"),
-        ("I(x * k) - 1", {"k": 3.0}, "{'k': 3.0}", [3 * v for v in XVAL], "k", "context", "constant:C"),
-        ("I(x * k) - 1", {"k": 3.0}, "{'k': 3.0}", [3 * v for v in XVAL], "x", "data", "constant:C"),
+        ("center(x) - 1", [], centered, "center", "transforms", "callable:T"),
+        ("center(x) - 1", [("center", "(lambda v: v * 0 + 7)")], [7.0] * 4, "center", "context", "callable:CT"),
+        ("fn(x) - 1", [("fn", "(lambda v: v + 100)")], [v + 100 for v in XVAL], "fn", "context", "callable:C"),
+        ("{cfg.scale * x} - 1", [("cfg", cfg)], [2 * v for v in XVAL], "cfg.scale", "context", "dotted:C"),
+        ("np.log(x) - 1", [("np", "np")], [float(np.log(v)) for v in XVAL], "np.log", "context", "dotted-callable:C"),
+        ("I(x * k) - 1", [("k", "3.0")], [3 * v for v in XVAL], "k", "context", "constant:C"),
+        ("I(x * k) - 1", [("k", "3.0")], [3 * v for v in XVAL], "x", "data", "constant:C:data-side"),
+        ("I(x * k) + fn(x) + np.sqrt(x) - 1", [("k", "3.0"), ("fn", "(lambda v: v + 100)"), ("np", "np")], [float(np.sqrt(v)) for v in XVAL], "fn", "context", "several:C"),
     ]
-    for formula, ctx, ctx_src, want, var, layer, tag in cases:
-        b.case(("resolve-callable", formula, tag, var), nontrivial=True, sample={"formula": formula, "context": ctx_src})
-        data = {"x": XVAL}
-        w = {"formula": formula, "name": var, "code": REPRO_B.format(data=data, ctx=ctx_src, formula=formula, want=want, var=var, layer=layer)}
-        try:
-            mm = model_matrix(formula, pd.DataFrame(data), context=ctx)
-            col = np.asarray(mm, dtype=float)[:, -1].tolist()
-            src = {str(v): k for k, vs in mm.model_spec.variables_by_source.items() for v in vs}
-        except Exception as e:  # outcome of the code under test
-            _fail(b, counts, "C17.resolution.order", tag + f":raises-{type(e).__name__}", w, f"{type(e).__name__}: {e}")
-            continue
-        if not np.allclose(col, want, rtol=0, atol=1e-12):
-            _fail(b, counts, "C17.resolution.order", tag, w, f"column {col}, expected {want} (from `{layer}`)")
-        elif src.get(var) != layer:
-            _fail(b, counts, "C17.resolution.source-report", tag, w, f"`{var}` came from `{layer}` but variables_by_source says {src.get(var)!r} ({src})")
+    for formula, items, want, var, layer, tag in cases:
+        judge("resolve-callable", formula, {"x": XVAL}, items, want, var, layer, tag, True)
+
     # a data column shadows a callable of the same name (data first), so calling it cannot work
-    for ctx, ctx_src in (({}, "{}"), ({"center": lambda v: v * 0 + 7}, "{'center': lambda v: v * 0 + 7}")):
+    for items in ([], [("center", "(lambda v: v * 0 + 7)")]):
         data = {"x": XVAL, "center": DATA_VAL}
-        b.case(("resolve-callable-shadowed", ctx_src), nontrivial=True)
-        w = {"formula": "center(x) - 1", "code": REPRO_B_FAIL.format(data=data, ctx=ctx_src, formula="center(x) - 1")}
-        try:
-            model_matrix("center(x) - 1", pd.DataFrame(data), context=ctx)
-            _fail(b, counts, "C17.resolution.order", "callable-shadowed-by-data", w, "center(x) evaluated although the data has a column `center` (data must win)")
-        except FactorEvaluationError:
-            pass
-        except Exception as e:  # outcome of the code under test
-            _fail(b, counts, "C17.resolution.order", f"callable-shadowed-by-data:raises-{type(e).__name__}", w, f"{type(e).__name__}: {e}")
+        for style in STYLES:
+            if style != "dict" and not items:
+                continue
+            b.case(("resolve-callable-shadowed", bool(items), style), nontrivial=True)
+            build = "".join("    " + line + "\n" for line in style_source(style, items).splitlines())
+            w = {"formula": "center(x) - 1", "context_style": style, "code": REPRO_B_FAIL.format(data=data, formula="center(x) - 1", build=build)}
+            try:
+                run_style(style, "center(x) - 1", data, items)
+                _fail(b, counts, "C17.resolution.order", f"callable-shadowed-by-data:{style}", w, "center(x) evaluated although the data has a column `center` (data must win)")
+            except FactorEvaluationError:
+                pass
+            except Exception as e:  # outcome of the code under test
+                _fail(b, counts, "C17.resolution.order", f"callable-shadowed-by-data:{style}:raises-{type(e).__name__}", w, f"{type(e).__name__}: {e}")
 
 
 # ----------------------------------------------------------------------------- C. '.' expansion
@@ -415,10 +460,13 @@ def run_bounded(ctx):
             "resolution-order",
             rule="every name in {n (no transform), log, center (built-in transforms)} x presence in data/context (3 patterns) x 4 ways "
                  "of using a value (bare name, inside I(), inside {}, in an interaction), plus callables (built-in, context override, "
-                 "context-only, dotted attribute/callable, constants) and a data column shadowing a callable; each layer supplies a "
-                 "distinguishable value so the matrix shows where the value came from; non-trivial = >= 2 layers define the name",
+                 "context-only, dotted attribute/callable, constants, several at once) and a data column shadowing a callable; x 7 ways "
+                 "of handing the context over (dict, LayeredMapping unnamed/named/nested, caller's locals and caller's globals through "
+                 "the default model_matrix(...) frame capture, capture_context(0) + Formula.get_model_matrix); each layer supplies a "
+                 "distinguishable value so the matrix shows where the value came from; the reported source is judged by its top-level "
+                 "layer name; non-trivial = >= 2 layers define the name",
             exhaustive=True,
-            bound="3 names x 3 presence patterns x 4 usages + 9 callable cases",
+            bound="(3 names x 3 presence patterns x 4 usages + 10 callable cases) x 7 context-passing styles",
         ) as b:
             check_resolution(b, counts)
         with ctx.bounded(
